@@ -22,6 +22,9 @@ type C07Case struct {
 	Share bool `json:"share,omitempty"`
 	// Muts: mutations of (nested) containers of A after the first comparisons; Equals is evaluated again after each
 	Muts []CloneMut `json:"muts,omitempty"`
+	// Builds: construction-route seeds of the operands (0 = Add/Set); equal content reached through
+	// different routes must still compare equal
+	Builds []int `json:"builds,omitempty"`
 }
 
 func equalityTreeCfg() TreeCfg {
@@ -232,6 +235,9 @@ func GenC07(t *rapid.T) *C07Case {
 	if oneIn(t, 4, "recompare") {
 		c.Muts = genNestedMuts(t)
 	}
+	if drawBool(t, "variants") {
+		c.Builds = []int{1 + genRaw(t), 1 + genRaw(t), 1 + genRaw(t)}
+	}
 	if oneIn(t, 3, "triple") {
 		cc, rel2 := deriveEq(t, b, cfg)
 		if oneIn(t, 3, "tcopy") {
@@ -272,6 +278,8 @@ func CheckC07(c *C07Case, st *Stats) error {
 		if c.Share && i == 0 {
 			impl[i] = BuildSharing(v)
 			st.Count("shared_instances_in_a")
+		} else if i < len(c.Builds) {
+			impl[i] = BuildVariant(v, c.Builds[i])
 		} else {
 			impl[i] = Build(v)
 		}
